@@ -10,14 +10,14 @@ from . import c13
 ID = "C07"
 LEVEL = "fault_enumeration"
 RULE = ("Hypothesis programs (1-3 files, optional include) with 0-3 faults planted from the catalogue of vf/mutate.py (73 error/critical "
-        "kinds spanning parse-time, compile-time, link-time and critical aborts; 15 warning-only kinds), run through the CLI in 4 "
+        "kinds spanning parse-time, compile-time, link-time and critical aborts; %d warning-only kinds), run through the CLI in 4 "
         "(quick) / 8 (thorough) configurations each: report format graphical|bare x a drawn -W list (class names, all, default, no- "
         "forms, unknown names) with a drawn output selection (-o with/without .bin, sub-directory, --implicit-bin, make_bin/make_raw/"
         "make_wav with and without paths, several outputs, none) and optionally --lst. Oracles: (1) exit status != 0 iff >= 1 planted "
         "error-severity fault; (2) exit status != 0 iff the run printed >= 1 error-severity diagnostic; (3) on failure the directory "
         "snapshot is unchanged, on success exactly the predicted files exist and hold the container of the image; (4) across the "
         "configurations of one program: same status, same files, same bytes. Plus the output-phase fault class (unwritable output). "
-        "Non-trivial: >= 1 planted fault or >= 1 enabled warning that fires; distinct = (program, configuration).")
+        "Non-trivial: >= 1 planted fault or >= 1 enabled warning that fires; distinct = (program, configuration).") % (len(mutate.FAULTS), len(mutate.WARNINGS))
 ASSUMPTIONS = ["severity of each catalogued kind (E/C/W) as calibrated in vf/mutate.py", "a forked child calling main_cli shows the exit status a shell sees"]
 
 HOST = ["\tmov #1, r0", "\tnop", "\t.word 1, 2, 3", "hq§:\tclr (r1)+", "\tbr .+2", "kq§ = 12", "\tmov #kq§, r1", "\t.blkw 2", "; comment", "\tadd r1, r2"]
